@@ -76,6 +76,10 @@ SYSTEMS = {
     # apply (the database has no mobility model for it); the curvature of such phases enters the growth law of the KWN model
     'cuti-cu4ti': dict(src=('file', 'CuTi.tdb'), elements=['CU', 'TI'], phases=['FCC_A1', 'CU4TI'], phase='CU4TI',
                        axes=[('TI', 0.16, 0.24)], T=[573.15, 673.15, 773.15, 873.15], curvature_only=True),
+    # mobilities supplied by the user as functions of temperature (setMobility: whole dictionary, then one element replaced through
+    # the element argument); the independent value is the user's own function, not kawin's wrapper around it
+    'nicral-usermob': dict(src=('datasets', 'NICRAL_TDB'), elements=['NI', 'CR', 'AL'], phases=['FCC_A1'], phase='FCC_A1',
+                           axes=[('CR', 0.02, 0.30), ('AL', 0.01, 0.12)], T=[1073.15, 1473.15], usermob=True),
     'fecrni-fcc-corr': dict(src=('datasets', 'FECRNI_DB'), elements=['FE', 'CR', 'NI'], phases=['FCC_A1', 'BCC_A2'], phase='FCC_A1',
                             axes=[('CR', 0.05, 0.25), ('NI', 0.08, 0.40)], T=[1273.15, 1473.15], correction={'CR': 25.0, 'FE': 0.2}),
 }
@@ -90,6 +94,13 @@ TOL_COLSUM = 1e-12   # sum of a column of the mobility matrix relative to its la
 TOL_ORDER = 1e-8     # same equilibrium solved by two objects that differ in element order
 
 
+def _arrh(m0, q):
+    return lambda T: m0 * math.exp(-q / (8.314 * T)) / (8.314 * T)
+
+
+USER_MOB = {'NI': _arrh(2.1e-4, 2.87e5), 'CR': _arrh(1.0, 1.0), 'AL': _arrh(7.5e-4, 2.84e5), 'CR*': _arrh(5.2e-4, 2.78e5)}
+
+
 def _db_arg(s):
     kind, name = SYSTEMS[s]['src']
     return getattr(datasets, name) if kind == 'datasets' else EXAMPLES + name
@@ -102,6 +113,9 @@ def system(s, order=None):
         _SYS[key] = GeneralThermodynamics(_db_arg(s), list(order or d['elements']), list(d['phases']))
         for el, fac in d.get('correction', {}).items():
             _SYS[key].setMobilityCorrection(el, fac)
+        if d.get('usermob'):
+            _SYS[key].setMobility({e: USER_MOB[e] for e in d['elements']}, d['phase'])
+            _SYS[key].setMobility({'CR': USER_MOB['CR*']}, d['phase'], element='CR')
     return _SYS[key]
 
 
@@ -190,7 +204,10 @@ def check_point(s, x, T, order=None):
     dof = np.array(cs.dof, dtype=float)
     if mobc is not None:
         corr = SYSTEMS[s].get('correction', {})
-        M = np.array([float(mobc[e](dof)) * corr.get(e, 1.0) for e in alpha])          # alphabetical
+        if d.get('usermob'):
+            M = np.array([USER_MOB['CR*' if e == 'CR' else e](T) for e in alpha])         # the user's functions themselves
+        else:
+            M = np.array([float(mobc[e](dof)) * corr.get(e, 1.0) for e in alpha])          # alphabetical
         tracer_ref = R_GAS * T * M
     else:
         M = None
